@@ -23,6 +23,11 @@ RULES = {
         (r'auto pending_transactions\{m_transactions \| std::views::filter\(\[this\]\(const auto& entry\) \{ return IsPending\(entry\.second\); \}\)\};',
          'auto pending_transactions{verif_ranges::filtered(m_transactions, [this](const auto& entry) { return IsPending(entry.second); })};'),
     ],
+    'httpserver.cpp': [
+        # HTTPHeaders::RemoveAll: std::ranges::remove_if's subrange return type does not instantiate under clang-14 + libstdc++-12
+        (r'auto moved = std::ranges::remove_if\(m_headers, \[key\] \(auto& pair\) \{\s*return CaseInsensitiveEqual\(key, pair\.first\);\s*\}\);\s*m_headers\.erase\(moved\.begin\(\), moved\.end\(\)\);',
+         'auto moved = std::remove_if(m_headers.begin(), m_headers.end(), [key] (auto& pair) { return CaseInsensitiveEqual(key, pair.first); }); m_headers.erase(moved, m_headers.end());'),
+    ],
     'util/btcsignals.h': [
         (r'using result_type = Combiner::result_type;', 'using result_type = typename Combiner::result_type;'),
     ],
